@@ -844,8 +844,10 @@ pub fn check_mask_ops(a: &MaskPair, b: &MaskPair, extra: &Pair, heavy: bool) -> 
             fails.push((format!("{what}:{c}"), d));
         }
     };
-    // complement
-    note(format!("mask-not:{}", a.shape()), check_mask(&!a.real.clone(), &sa.complement(), &cand, &probes));
+    // complement (`!` of a two-list mask computes allow - block)
+    if heavy || !a.normalize_is_heavy() {
+        note(format!("mask-not:{}", a.shape()), check_mask(&!a.real.clone(), &sa.complement(), &cand, &probes));
+    }
     // intersection
     note(
         format!("mask-and:{}&{}", a.shape(), b.shape()),
